@@ -52,7 +52,7 @@ def gen_lattice(args):
                 for wrapped in (0, 1):
                     o = core.guarded(Sp.phase_from_complex_signal, z[:, None], smoothing=(5 if smooth else None),
                                      ret_phase='wrapped' if wrapped else 'unwrapped', phase_jump=jump)
-                    if isinstance(o, str):
+                    if isinstance(o, str) or getattr(o, 'shape', None) != (len(k), 1):
                         recs.append({'kind': 'pfc', 'k': k, 'smooth': smooth, 'jump': jump, 'wrapped': wrapped, 'out': [-99], 'exact': 1})
                         continue
                     out, ex = lat(o[:, 0])
@@ -75,13 +75,19 @@ def gen_lattice(args):
         for sr in (1, 128, 1000):
             o = core.guarded(Sp.freq_from_phase, u[:, None], sr) if len(k) > 1 else 'raise:short'
             if not isinstance(o, str):
-                out, ex = lat(o[:, 0], 2 * M / sr)
+                shape_ok = getattr(o, 'shape', None) == (len(k), 1)
+                out, ex = lat(o[:, 0], 2 * M / sr) if shape_ok else ([-99], 1)
                 recs.append({'kind': 'ffp', 'u': k, 'out2': out, 'exact': ex, 'sr': sr})
             f = np.array(st, float) * sr / M
-            o = core.guarded(Sp.phase_from_freq, f[:, None], sr, phase_start=start * U)
+            f2 = np.c_[f, 2 * f] if sr == 128 else f[:, None]          # one- and two-column frequency profiles
+            o = core.guarded(Sp.phase_from_freq, f2, sr, phase_start=start * U)
             if not isinstance(o, str):
-                out, ex = lat(o[:, 0])
+                shape_ok = getattr(o, 'shape', None) == f2.shape
+                out, ex = lat(o[:, 0]) if shape_ok else ([-99], 1)
                 recs.append({'kind': 'pff', 'f': list(st), 'start': start, 'out': out, 'exact': ex, 'sr': sr})
+                if shape_ok and f2.shape[1] == 2:
+                    out, ex = lat(o[:, 1])
+                    recs.append({'kind': 'pff', 'f': [2 * v for v in st], 'start': start, 'out': out, 'exact': ex, 'sr': sr})
     return recs
 
 
@@ -189,8 +195,103 @@ def gen_ft(args):
     return recs
 
 
+def replay_ampnorm(args):
+    """Leg B for amplitude_normalise: behaviours of spec/AmpNorm.tla through the real routine with a scripted envelope kernel."""
+    emd = core.import_emd()
+    out = []
+    U = emd.utils
+    for j, b in args:
+        envs, divs = b['env'], b['divs']
+        ncol = len(envs)
+        n = 40
+        rng = np.random.RandomState(j)
+        X = rng.randn(n, ncol)
+        arrays = {}
+        state = {'col': 0, 'req': 0, 'calls': 0}
+
+        def stub(x, mode='upper', interp_method='splrep', **kw):
+            state['calls'] += 1
+            c = state['col']
+            if c >= ncol:
+                return None
+            state['req'] += 1
+            r = state['req']
+            kind = envs[c][r - 1] if r - 1 < len(envs[c]) else 'none'
+            if r == divs[c] + 1:            # the model says this is the column's last request
+                state['col'] += 1
+                state['req'] = 0
+            if kind == 'none':
+                return None
+            if kind == 'flat':
+                e = np.ones(n)
+            else:
+                e = 1.0 + 0.5 * np.random.RandomState(1000 * j + 10 * c + r).rand(n)
+            arrays[(c, r)] = e
+            return e
+        orig = U.interp_envelope
+        U.interp_envelope = stub
+        try:
+            res = core.guarded(U.amplitude_normalise, X.copy(), max_iters=b['maxit'])
+        finally:
+            U.interp_envelope = orig
+        diff = None
+        if isinstance(res, str):
+            diff = res
+        else:
+            for c in range(ncol):
+                want = X[:, c].copy()
+                for r in range(1, divs[c] + 1):
+                    want = want / arrays.get((c, r), np.full(n, np.nan))
+                if not np.allclose(res[:, c], want, rtol=1e-12, atol=0, equal_nan=False):
+                    diff = 'column %d: result is not X divided by its first %d envelopes (envelope script %s)' % (c, divs[c], envs[c])
+                    break
+            if diff is None and state['calls'] != sum(d + 1 for d in divs):
+                diff = 'envelope requests %d, model %d' % (state['calls'], sum(d + 1 for d in divs))
+        out.append((j, diff))
+    return out
+
+
+def ampnorm_leg(ctx):
+    from .sift_check import parse_behaviours
+    cfg = os.path.join(ctx.work, 'an.cfg')
+    behs = []
+    for mi in (1, 2, 3):
+        consts = {'NCols': 2, 'MaxIters': mi, 'Dev': '{}'}
+        core.write_cfg(cfg, spec='Spec', invariants=['ColumnsIndependent', 'BudgetRespected'], properties=['Terminates'], constants=consts)
+        core.require_ok(core.run_tlc(ctx, 'AmpNorm', cfg, name='AmpNorm max_iters=%d' % mi), 'Leg A AmpNorm')
+        core.write_cfg(cfg, spec='Spec', invariants=['Export'], constants=consts)
+        res = core.run_tlc(ctx, 'AmpNorm', cfg, name='AmpNorm export', workers=1)
+        core.require_ok(res, 'AmpNorm export')
+        for b in parse_behaviours(res['out']):
+            b['maxit'] = mi
+            b['env'] = [list(e) for e in b['env']]
+            b['divs'] = list(b['divs'])
+            behs.append(b)
+    core.write_cfg(cfg, spec='Spec', invariants=['ColumnsIndependent'], constants={'NCols': 2, 'MaxIters': 3, 'Dev': '{"SharedBudget"}'})
+    core.expect_violation(ctx, 'AmpNorm', cfg, 'ColumnsIndependent', 'AmpNorm shared iteration budget deviation', workers=4)
+    if ctx.quick:
+        rng = np.random.RandomState(ctx.seed)
+        pick = rng.choice(len(behs), 1500, replace=False)
+        behs = [behs[i] for i in pick]
+    idx = list(enumerate(behs))
+    import multiprocessing as mp
+    nbad = 0
+    with mp.Pool(core.NCPU) as pool:
+        for part in pool.imap_unordered(replay_ampnorm, [idx[i::32] for i in range(32)]):
+            for j, diff in part:
+                ctx.cov['evaluations'] += 1
+                if diff:
+                    nbad += 1
+                    if nbad <= 3:
+                        ctx.violation('C09 (amplitude_normalise): behaviour %s not reproduced: %s' % (behs[j], diff), {'leg': 'ampnorm', 'behaviour': behs[j], 'difference': diff})
+                else:
+                    ctx.cov['traces_validated_against_impl'] += 1
+    ctx.leg('ampnorm', behaviours_replayed=len(behs), mismatches=nbad)
+
+
 def run():
     ctx = Ctx('C09')
+    ampnorm_leg(ctx)
     cfg = os.path.join(ctx.work, 'ph.cfg')
     invs = ['WrapRange', 'UnwrapRecovers', 'RoundTrip', 'OffsetsConsistent']
     plans = ctx.pick([(5, 'StepsSome', [-3, 0, 1, 2, 3, 5, 7, 9, 11])], [(5, 'StepsFull', list(range(-5, 12))), (6, 'StepsSome', [-3, 0, 1, 2, 3, 5, 7, 9, 11])])
